@@ -68,6 +68,8 @@ PRE = {"parse_string_literal": ("String", "BlockString")}
 
 # entry points: (function that drives the parser, Parser method, arguments, what it must accept)
 ENTRIES = [("parse", "parse_document", ()), ("parse_value", "parse_value_literal", (False,)), ("parse_type", "parse_type_reference", ())]
+# module-level drivers analysed like methods: what the whole function must accept
+DRIVERS = {"parse_value": "SOF Value[V] EOF", "parse_type": "SOF Type EOF"}
 
 
 def spec_text(name, args, flags):
@@ -99,4 +101,28 @@ NODES = {
     "parse_object_type_extension": ("ObjectTypeExtension",), "parse_interface_type_extension": ("InterfaceTypeExtension",),
     "parse_union_type_extension": ("UnionTypeExtension",), "parse_enum_type_extension": ("EnumTypeExtension",),
     "parse_input_object_type_extension": ("InputObjectTypeExtension",), "parse_directive_definition": ("DirectiveDefinition",),
+}
+
+# source order of every node kind's slots (from the specification's right-hand sides): P5 checks that each slot is fed and that the
+# values feeding them are produced (tokens consumed / callees called) in this order
+_TD = ("description", "name")
+ORDER = {
+    "Document": ("definitions",), "OperationDefinition": ("operation", "name", "variable_definitions", "directives", "selection_set"),
+    "VariableDefinition": ("variable", "type", "default_value", "directives"), "Variable": ("name",), "SelectionSet": ("selections",),
+    "Field": ("alias", "name", "arguments", "directives", "selection_set"), "Argument": ("name", "value"),
+    "FragmentSpread": ("name", "directives"), "InlineFragment": ("type_condition", "directives", "selection_set"),
+    "FragmentDefinition": ("name", "variable_definitions", "type_condition", "directives", "selection_set"),
+    "IntValue": ("value",), "FloatValue": ("value",), "StringValue": ("value", "block"), "BooleanValue": ("value",), "NullValue": (), "EnumValue": ("value",),
+    "ListValue": ("values",), "ObjectValue": ("fields",), "ObjectField": ("name", "value"), "Directive": ("name", "arguments"),
+    "ListType": ("type",), "NonNullType": ("type",), "NamedType": ("name",), "Name": ("value",),
+    "SchemaDefinition": ("directives", "operation_types"), "OperationTypeDefinition": ("operation", "type"),
+    "ScalarTypeDefinition": _TD + ("directives",), "ObjectTypeDefinition": _TD + ("interfaces", "directives", "fields"),
+    "FieldDefinition": _TD + ("arguments", "type", "directives"), "InputValueDefinition": _TD + ("type", "default_value", "directives"),
+    "InterfaceTypeDefinition": _TD + ("directives", "fields"), "UnionTypeDefinition": _TD + ("directives", "types"),
+    "EnumTypeDefinition": _TD + ("directives", "values"), "EnumValueDefinition": _TD + ("directives",),
+    "InputObjectTypeDefinition": _TD + ("directives", "fields"), "DirectiveDefinition": _TD + ("arguments", "locations"),
+    "SchemaExtension": ("directives", "operation_types"), "ScalarTypeExtension": ("name", "directives"),
+    "ObjectTypeExtension": ("name", "interfaces", "directives", "fields"), "InterfaceTypeExtension": ("name", "directives", "fields"),
+    "UnionTypeExtension": ("name", "directives", "types"), "EnumTypeExtension": ("name", "directives", "values"),
+    "InputObjectTypeExtension": ("name", "directives", "fields"),
 }
